@@ -311,6 +311,11 @@ def _exec(hist):
 
 
 def _thread_item(item):
+    from .. import engine_t
+    return engine_t.isolated(_thread_item_here, item)
+
+
+def _thread_item_here(item):
     """update_cache / find_jobs read the state points of uncached jobs in a thread pool: every interleaving of those
     threads (<= bound preemptions, scheduling points before every open / stat / listing system call) must give the serial answer."""
     import itertools  # noqa
